@@ -5,6 +5,9 @@ Open Scope Z_scope.
 Lemma len_nonneg {A} (l : list A) : 0 <= len l.
 Proof. unfold len; lia. Qed.
 
+Lemma len_cons {A} (x : A) l : len (x :: l) = len l + 1.
+Proof. unfold len; cbn [length]; lia. Qed.
+
 Lemma len_app {A} (a b : list A) : len (a ++ b) = len a + len b.
 Proof. unfold len; rewrite app_length; lia. Qed.
 
